@@ -553,6 +553,43 @@ func checkRegistries(c *core.Ctx, pkg *packages.Package) {
 					registered[t] = map[string]bool{}
 				}
 				registered[t][nm] = true
+				// the registered constructor must build a scalar of exactly that type
+				var lit *ast.FuncLit
+				switch a := ast.Unparen(ce.Args[1]).(type) {
+				case *ast.FuncLit:
+					lit = a
+				case *ast.Ident:
+					ast.Inspect(fd.Body, func(y ast.Node) bool {
+						if as, ok := y.(*ast.AssignStmt); ok && len(as.Lhs) == 1 && len(as.Rhs) == 1 {
+							if l, ok := as.Lhs[0].(*ast.Ident); ok && (info.Defs[l] == info.Uses[a] || info.Uses[l] == info.Uses[a]) {
+								if fl, ok := as.Rhs[0].(*ast.FuncLit); ok {
+									lit = fl
+								}
+							}
+						}
+						return true
+					})
+				}
+				cons := nm + "(" + id.Name + ")"
+				if lit == nil {
+					c.Unknown("C02.R5", cons, "constructor builds the registered type", ce.Pos(), "constructor is not a function literal")
+				} else {
+					bad := ""
+					nret := 0
+					ast.Inspect(lit.Body, func(y ast.Node) bool {
+						if rs, ok := y.(*ast.ReturnStmt); ok && len(rs.Results) == 1 {
+							nret++
+							if tv, ok := info.Types[rs.Results[0]]; ok {
+								if n := core.NamedOf(tv.Type); n == nil || n.Obj().Name() != t {
+									bad = tv.Type.String()
+								}
+							}
+						}
+						return true
+					})
+					c.Check(bad == "" && nret > 0, "C02.R5", cons, "constructor builds the registered type", ce.Pos(),
+						"the constructor registered for "+id.Name+" returns a "+bad+": New*Scalar("+id.Name+", v) and conversions to that type yield a scalar of another type")
+				}
 			}
 			return true
 		})
